@@ -13,7 +13,8 @@ import importlib
 
 from sx.values import SymBool
 
-from .common import ApiRig, Gen, socket_mod
+from . import catalog
+from .common import ApiRig, Gen, Rig, socket_mod
 from .console import STEPS, Installation
 
 PID = "C15"
@@ -26,8 +27,10 @@ ASSUMPTIONS = ["'no timer or task remains' is observed as: the virtual loop has 
 
 
 def bounds(tier):
-    return {"phases": ["refusing", "connecting", "handshake", "initialised", "pending"], "shutdown_instant": "symbolic within the phase's window",
-            "idle_horizon_s": 700, "reinit": True}
+    return {"phases": ["refusing", "connecting", "handshake", "initialised", "pending", "after_failed_init", "backoff"],
+            "socket_level_close": ["down_queue", "connecting", "write_suspended", "backoff"],
+            "shutdown_instant": "symbolic within the phase's window", "idle_horizon_s": 700, "reinit": True,
+            "second_shutdown_of_the_new_session": tier == "thorough"}
 
 
 def instances(tier):
@@ -40,6 +43,13 @@ def instances(tier):
         out.append({"phase": "initialised", "gen": g})
         out.append({"phase": "pending", "gen": g})
         out.append({"phase": "after_failed_init", "gen": g})
+        out.append({"phase": "backoff", "gen": g})
+        for sc in ("down_queue", "connecting", "write_suspended", "backoff"):
+            out.append({"phase": "sock_close", "gen": g, "scenario": sc})
+        if tier == "thorough":
+            out.append({"phase": "initialised", "gen": g, "second_cycle": True})
+            out.append({"phase": "pending", "gen": g, "second_cycle": True})
+            out.append({"phase": "handshake", "gen": g, "step": 2, "second_cycle": True})
     return out
 
 
@@ -52,6 +62,8 @@ def _b(x):
 
 
 def run(ctx, p):
+    if p["phase"] == "sock_close":
+        return _sock_close(ctx, p)
     A = importlib.import_module("pyairtouch.api")
     S = socket_mod()
     g = Gen(p["gen"])
@@ -60,7 +72,7 @@ def run(ctx, p):
     mode = {"accept": phase not in ("refusing",)}
     lat = 3.0 if phase == "connecting" else 0
     window = {"refusing": (0, 7), "connecting": (0, 5), "handshake": (0.25, 6.5), "initialised": (1, 400), "pending": (3, 9),
-              "after_failed_init": (5.5, 9)}[phase]
+              "after_failed_init": (5.5, 9), "backoff": (1, 8)}[phase]
     ts = ctx.real("ts", window[0], window[1])
     with ApiRig(ctx, g, inst) as rig:
         con = rig.console
@@ -81,6 +93,15 @@ def run(ctx, p):
             done["at"] = rig.loop.time()
             rig.net.frozen = True          # from here on any network activity is a violation
 
+        if phase == "backoff":
+            # initialised, then the link dies and the console refuses: shutdown falls into the reconnect back-off
+            def kill0():
+                mode["accept"] = False
+                c = rig.net.current()
+                if c:
+                    c.reset()
+
+            rig.loop.vt_call_at(1.0, kill0)
         if phase == "pending":
             # initialised, then the link dies and the console refuses; a command is queued; then shutdown
             def kill():
@@ -147,4 +168,106 @@ def run(ctx, p):
         ctx.check(len(hb) >= 3, "reinit_works", detail=dict(detail, why="no heartbeat in the second session", version_requests=len(hb)))
         resets2 = [t for (ev, idx, t) in rig.net.events if ev == "close" and _b(t > t0)]
         ctx.check(resets2 == [], "reinit_works", detail=dict(detail, why="the healthy link of the second session was reset", at=[str(t) for t in resets2]))
+        ctx.check(not rig.task_failures(), "reinit_works", detail=[str(e.get("exception")) for e in rig.task_failures()][:2])
+        if p.get("second_cycle"):
+            # the second session is shut down at a free instant too: final and leak-free again
+            ts2 = t0 + 700.0 + ctx.real("ts2", 1, 400)
+            done.pop("at", None)
+            rig.loop.vt_call_at(ts2, lambda: rig.spawn(do_shutdown()))
+            rig.run(ts2 + 1.0)
+            ctx.check("at" in done, "nothing_after_shutdown", detail=dict(detail, why="second shutdown() did not return within 1 s"))
+            rig.run(ts2 + 700.0)
+            ctx.check(rig.net.late == [], "nothing_after_shutdown", detail=dict(detail, cycle=2, late=[(k, str(t)) for k, t in rig.net.late][:4]))
+            ctx.check(rig.loop.idle(), "loop_idle", detail=dict(detail, cycle=2, timers=len(rig.loop.pending_timers()), ready=len(rig.loop.pending_ready())))
+            ctx.check(all(c.client_closed for c in rig.net.conns), "all_transports_closed", detail=dict(detail, cycle=2))
+            ctx.check(rig.at.initialised is False, "nothing_after_shutdown", detail=dict(detail, cycle=2, why="initialised after shutdown"))
+
+
+def _sock_close(ctx, p):
+    """Closing the bare socket (the property's '(or closing the socket)'): messages held for a down link, a connect in
+    flight, a write suspended in drain(), or the reconnect back-off - close() at a free instant. Afterwards nothing
+    happens any more, no connected notification is issued, send raises NotOpenError; a later open_socket() behaves as on
+    a fresh object (in particular nothing submitted before the close reaches the wire)."""
+    S = socket_mod()
+    g = Gen(p["gen"])
+    sc = p["scenario"]
+    entry = catalog.catalog(g)[3]
+    mode = {"accept": sc in ("connecting", "write_suspended", "backoff")}
+    lat = 3.0 if sc == "connecting" else 0
+    ts = ctx.real("ts", 0, 7) if sc != "backoff" else ctx.real("ts", 1, 8)
+    with Rig(ctx, g) as rig:
+        rig.net.on_connect = lambda net, n: (("accept", lat) if mode["accept"] else ("refuse",))
+        if sc == "write_suspended":
+            rig.net.on_drain = lambda conn, n: 4.0        # back-pressure: every drain() takes 4 s
+        res = {}
+
+        def sender(i, retries):
+            async def go():
+                try:
+                    await rig.sock.send(entry[1](i), S.RetryPolicy(max_retries=retries, max_lifetime=300.0))
+                    res[i] = "ok"
+                except Exception as e:  # noqa: BLE001
+                    res[i] = type(e).__name__
+            return go
+
+        rig.spawn(rig.sock.open_socket())
+        rig.loop.vt_call_at(0.5, lambda: rig.spawn(sender(1, 2)()))
+        rig.loop.vt_call_at(1.5, lambda: rig.spawn(sender(2, 0)()))
+        if sc == "backoff":
+            def kill():
+                mode["accept"] = False
+                c = rig.net.current()
+                if c:
+                    c.reset()
+            rig.loop.vt_call_at(1.0, kill)
+        done = {}
+
+        async def do_close():
+            await rig.sock.close()
+            done["at"] = rig.loop.time()
+            rig.net.frozen = True
+
+        rig.loop.vt_call_at(ts, lambda: rig.spawn(do_close()))
+        rig.loop.vt_run(ts + 1.0)
+        detail = {"scenario": sc}
+        ctx.check("at" in done, "nothing_after_shutdown", detail=dict(detail, why="close() did not return within 1 s"))
+        mode["accept"] = True
+        rig.loop.vt_run(ts + 100.0)
+        ctx.observe("late", len(rig.net.late))
+        ctx.check(rig.net.late == [], "nothing_after_shutdown", detail=dict(detail, late=[(k, str(t)) for k, t in rig.net.late][:4]))
+        for c in rig.net.inflight_opens:
+            ctx.check(c.client_closed and _b(c.closed_at == c.opened_at) and not c.writes, "nothing_after_shutdown",
+                      detail=dict(detail, why="in-flight connection kept open / written to after close"))
+        t_done = done.get("at", ts)
+        late_conn = [t for t, connected in rig.conn_events if connected and _b(t > t_done)]
+        ctx.check(late_conn == [], "nothing_after_shutdown", detail=dict(detail, why="connected notification after close()", at=[str(t) for t in late_conn]))
+        ctx.check(rig.loop.idle(), "loop_idle", detail=dict(detail, timers=len(rig.loop.pending_timers()), ready=len(rig.loop.pending_ready())))
+        ctx.check(all(c.client_closed for c in rig.net.conns), "all_transports_closed", detail=detail)
+        out = {}
+
+        async def try_send():
+            try:
+                await rig.sock.send(entry[1](3), S.RetryPolicy(max_retries=0, max_lifetime=30.0))
+                out["r"] = "sent"
+            except S.NotOpenError:
+                out["r"] = "notopen"
+            except Exception as e:  # noqa: BLE001
+                out["r"] = type(e).__name__
+
+        rig.spawn(try_send())
+        rig.loop.vt_run(ts + 101.0)
+        ctx.check(out.get("r") == "notopen", "send_raises_not_open", detail=dict(detail, result=out.get("r")))
+        # ---- reversible ------------------------------------------------------------------------------------
+        rig.net.frozen = False
+        rig.net.on_drain = None
+        n_conns = len(rig.net.conns)
+        rig.loop.vt_call_at(ts + 102.0, lambda: rig.spawn(rig.sock.open_socket()))
+        rig.loop.vt_call_at(ts + 103.0, lambda: rig.spawn(sender(4, 0)()))
+        rig.loop.vt_run(ts + 110.0)
+        new = rig.net.conns[n_conns:]
+        from ref import framing
+        frames = [f for c in new for f in framing.parse_stream(g.n, [int(x) for x in c.written()])]
+        datas = [bytes(f["data"]) for f in frames]
+        ok = len(new) == 1 and not new[0].client_closed and datas == [bytes(entry[3](4))] and res.get(4) == "ok"
+        ctx.check(ok, "reinit_works", detail=dict(detail, conns=len(new), frames=[d.hex() for d in datas], result=res.get(4)))
         ctx.check(not rig.task_failures(), "reinit_works", detail=[str(e.get("exception")) for e in rig.task_failures()][:2])
